@@ -353,11 +353,13 @@ func (m *Manager) onClose(reason Reason, err error) {
 	// The callbacks of the connection are switched off before the epoch changes: what they
 	// let through before is of the epoch that ends here (see `connect`).
 	m.cleanup()
-	m.connEpoch.Add(1)
 	m.backoff.reset()
 
+	// The state and the epoch change together: whoever finds the manager connected
+	// (`connected`) reads the epoch of the connection that it is connected with.
 	m.stateMu.Lock()
 	m.state = clientConnStateDisconnected
+	m.connEpoch.Add(1)
 	m.stateMu.Unlock()
 
 	m.closeHandlers.forEach(func(handler *ManagerCloseFunc) { (*handler)(reason, err) }, true)
